@@ -561,3 +561,23 @@ VARIANTS += [
     dict(prop="C16", name="single-record-batch-fast-path", expect="GUARD-ready|yes-on-true-edge",
          edits=[dict(file=BTF, find=_C16H["seeded"][0], replace=_C16H["seeded"][1])]),
 ]
+
+VARIANTS += [
+    # behaviour-preserving renames: rules must identify operands by position / role, not by source name
+    dict(prop="C07", name="rename-adder-params", benign=True,
+         edits=[dict(file=ASF, find="    x: &AdditiveShare<Boolean, N>,\n    y: &AdditiveShare<Boolean, N>,\n    carry: &mut AdditiveShare<Boolean, N>,\n) -> Result<AdditiveShare<Boolean, N>, Error>\nwhere\n    C: Context,\n    Boolean: FieldSimd<N>,\n    AdditiveShare<Boolean, N>: BooleanProtocols<C, N>,\n{\n    let output = x + y + &*carry;\n\n    *carry = &*carry\n        + (x + &*carry)\n            .multiply(&(y + &*carry), ctx, record_id)\n            .await?;\n\n    Ok(output)",
+                     replace="    lhs: &AdditiveShare<Boolean, N>,\n    rhs: &AdditiveShare<Boolean, N>,\n    c_in: &mut AdditiveShare<Boolean, N>,\n) -> Result<AdditiveShare<Boolean, N>, Error>\nwhere\n    C: Context,\n    Boolean: FieldSimd<N>,\n    AdditiveShare<Boolean, N>: BooleanProtocols<C, N>,\n{\n    let sum_bit = lhs + rhs + &*c_in;\n\n    *c_in = &*c_in\n        + (lhs + &*c_in)\n            .multiply(&(rhs + &*c_in), ctx, record_id)\n            .await?;\n\n    Ok(sum_bit)")]),
+    dict(prop="C07", name="rename-mul-params", benign=True,
+         edits=[dict(file=SHM, find="    a: &Replicated<F, N>,\n    b: &Replicated<F, N>,\n    prss_left: &<F as Vectorizable<N>>::Array,\n    prss_right: &<F as Vectorizable<N>>::Array,\n) -> Result<Replicated<F, N>, Error>\nwhere\n    C: Context,\n    F: Field + FieldSimd<N>,\n{\n    let role = ctx.role();\n\n    // Compute the value z_i we want to send to the left helper, i.e. (i-1).\n    let z_left = a.left_arr().clone() * b.left_arr()\n        + a.left_arr().clone() * b.right_arr()\n        + a.right_arr().clone() * b.left_arr()\n        + prss_left\n        - prss_right;",
+                     replace="    lhs: &Replicated<F, N>,\n    rhs: &Replicated<F, N>,\n    mask_l: &<F as Vectorizable<N>>::Array,\n    mask_r: &<F as Vectorizable<N>>::Array,\n) -> Result<Replicated<F, N>, Error>\nwhere\n    C: Context,\n    F: Field + FieldSimd<N>,\n{\n    let role = ctx.role();\n\n    // Compute the value z_i we want to send to the left helper, i.e. (i-1).\n    let z_left = lhs.left_arr().clone() * rhs.left_arr()\n        + lhs.left_arr().clone() * rhs.right_arr()\n        + lhs.right_arr().clone() * rhs.left_arr()\n        + mask_l\n        - mask_r;")]),
+    dict(prop="C01", name="rename-group-loop-var", benign=True,
+         edits=[dict(file=HAF, find="    for report in reports {\n        reports_by_matchkey\n            .entry(report.match_key)\n            .and_modify(|e| e.add_report(report.clone().into()))\n            .or_insert(MatchEntry::Single(report.into()));\n    }", replace="    for r in reports {\n        reports_by_matchkey\n            .entry(r.match_key)\n            .and_modify(|entry| entry.add_report(r.clone().into()))\n            .or_insert(MatchEntry::Single(r.into()));\n    }")]),
+]
+
+DPF = "ipa-core/src/protocol/dp/mod.rs"
+VARIANTS += [
+    dict(prop="C12", name="rename-prss-rng-halves", benign=True,
+         edits=[dict(file=DPF, find="            let (mut left, mut right) = ctx.prss_rng();\n            let rng = match direction_to_excluded_helper {\n                Direction::Left => &mut right,\n                Direction::Right => &mut left,\n            };", replace="            let (mut rng_l, mut rng_r) = ctx.prss_rng();\n            let rng = match direction_to_excluded_helper {\n                Direction::Left => &mut rng_r,\n                Direction::Right => &mut rng_l,\n            };")]),
+    dict(prop="C12", name="rename-prss-rng-halves-swapped", expect="WIRE-passes|direction-to-generator",
+         edits=[dict(file=DPF, find="            let (mut left, mut right) = ctx.prss_rng();\n            let rng = match direction_to_excluded_helper {\n                Direction::Left => &mut right,\n                Direction::Right => &mut left,\n            };", replace="            let (mut right, mut left) = ctx.prss_rng();\n            let rng = match direction_to_excluded_helper {\n                Direction::Left => &mut right,\n                Direction::Right => &mut left,\n            };")]),
+]
